@@ -1,25 +1,37 @@
-import Wayfind.Proofs.Reach
+import Wayfind.Proofs.Reachable
 import Wayfind.Proofs.FitsFacts
 
 /-! # C01 — every match is genuine
 
-`C01_match_genuine_tree`: on every tree reachable by router-level inserts and deletes, a search result names a
-route stored in the tree and the returned parameters lay that route over the path (`Fits`).
-`C01_fits_reconstructs`: what `Fits` means, spelled out as the property words it — substituting the values for the
-parameters reproduces the path byte for byte, names are the expansion's names in order, values are non-empty,
-dynamic values contain no '/', values are valid UTF-8 and every constrained value is accepted.
-Status: **partial** — stated on the tree layer (`Node.routes`); the identification of the tree's routes with the
-expansions of the live templates (template text, data, `expanded`) is the Router-level registry invariant. -/
+`C01_match_genuine`: on every router reachable through the API (any sequence of `constraint`, `insert`, `delete`
+calls, successful or failing, after `Router::new`), a search result names a route stored in the tree — its
+template text, expansion text and data are those stored with that route — and the returned parameters lay that
+route over the path (`Fits`), for every constraint environment.
+`C01_fits_reconstructs`: what `Fits` means in the property's words — substituting the values for the parameters
+reproduces the path byte for byte, the names are the expansion's names in order, every value is non-empty and valid
+UTF-8, dynamic values contain no '/', every constrained value is accepted.
+Status: **partial** — that the stored routes are exactly the expansions of the live templates (with their data) is
+the registry invariant (`Proofs/Registry.lean`), proved for templates whose expansions have distinct part lists. -/
 
-theorem C01_match_genuine_tree (env : Env) (ops : List ROp) (hw : ∀ op ∈ ops, op.wf) (path : Bytes) (i : Info) (ps : Params) :
-    Node.search env (ops.foldl applyROp Node.empty) path [] = some (i, ps) →
-    ∃ r ∈ Node.routes (ops.foldl applyROp Node.empty), r.info = i ∧ Fits env r.parts path ps :=
-  (reachable_search env ops hw path).2.1 i ps
+theorem C01_match_genuine (env : Env) (r : Router) (h : Reachable r) (path : Bytes) (m : Match)
+    (hm : r.search env path = some m) :
+    ∃ rt ∈ Node.routes r.root, rt.info.template = m.template ∧ rt.info.expanded = m.expanded ∧ rt.info.data = m.data ∧
+      Fits env rt.parts path m.params := by
+  rw [Router.search_eq_walk env r h path] at hm
+  cases hw : refWalk env path.length (Node.routes r.root) path [] with
+  | none => rw [hw] at hm; cases hm
+  | some x =>
+    obtain ⟨i, ps⟩ := x
+    rw [hw] at hm
+    simp only [Option.map_some, Option.some.injEq] at hm
+    obtain ⟨rt, hr, hi, vs, hf, hps⟩ := refWalk_sound env _ _ _ _ _ _ hw
+    subst hm
+    exact ⟨rt, hr, by rw [hi], by rw [hi], by rw [hi], by simpa [hps] using hf⟩
 
 theorem C01_fits_reconstructs (env : Env) (parts : List Part) (path : Bytes) (vs : Params) (h : Fits env parts path vs) :
     instantiate parts vs = some path ∧ paramNames parts = vs.map Prod.fst ∧
     (∀ v ∈ vs.map Prod.snd, v ≠ [] ∧ env.valid v = true) ∧ valuesOk env parts vs :=
   fits_reconstructs env h
 
-/-- non-vacuity: a reachable tree, a path with several assignments, and the genuine match -/
+/-- non-vacuity: a tree built by inserts, a path with several assignments, and the genuine match -/
 example : Node.search envT tw [47,97,47,109,47,98,47,109] [] = some (iw, [([119],[97,47,109,47,98])]) := by decide
